@@ -3,7 +3,7 @@ CONSTANTS
   LoCard = 4
   MaxZ = 2
   R = 2
-  MaxInst = 1
+  MaxInst = 0
   NZ = 2
   MaxReq = 3
   NForeign = 1
